@@ -212,7 +212,7 @@ def gen_qblock(ctx, n):
         if rng.random() < 0.06:
             total = rng.choice([0, 1, 2 ** 24, 2 ** 24 + 1, 2 ** 31 - 1])
         out.append("qreq %d %d %d %d %s" % (mp, rng.choice([0, 0, 1]), szx, total, ",".join(map(str, ns)) or "-"))
-    # qreq at the end of the number space (fix 856b47c): the last blocks recorded, total_len at / around / far beyond 2^20 blocks
+    # qreq at the end of the number space (fix 00bcbc1): the last blocks recorded, total_len at / around / far beyond 2^20 blocks
     for _ in range(max(8, n // 12)):
         mp = rng.choice([1, 2, 3, 4, 10, 16])
         szx = rng.choice([0, 0, 1, 2, 6])
@@ -709,7 +709,7 @@ def search(ctx, tie_breaks, proof):
 
 
 def known(ctx, c):
-    # no open finding: c02-qblock2-num-2e20 is fixed (856b47c) - a request for block 2^20 / a datagram that does not parse is
+    # no open finding: c02-qblock2-num-2e20 is fixed (00bcbc1) - a request for block 2^20 / a datagram that does not parse is
     # a contradiction again (judge_qblock)
     return None
 
